@@ -312,7 +312,7 @@ theorem Dep_funcallArm (env : Env) (i : NInfo) {isAlloca : M Bool} {fn : M Unit}
     simp only
     have heqv : Eqv (if bigV i rb = true then 1 else 0) 0 (if bigV i rb = true then 1 else 0) 0 := by
       cases bigV i rb <;> exact ⟨by decide, by decide, by decide, by decide⟩
-    obtain ⟨_, hst, hpop⟩ := popArgs_spec env args _ 0 _ 0 0 flags stack heqv hs hfs
+    obtain ⟨_, hst, hpop⟩ := popArgs_spec (K := Straight) env args _ 0 _ 0 0 flags stack heqv hs hfs
     have hz : ∀ ab ∈ args.zip flags, Dep ab.1.gen 0 :=
       fun ab hab => hargs ab.1 (mem_zip_fst (b := ab.2) hab)
     have hp1 := Dep_pushArgs2 (args.zip flags) true hz
